@@ -11,7 +11,10 @@ CFG = {'assumptions': ['f64 inputs cross the boundary as bit patterns and are de
                 'GeoProofs/Lemmas/C06PScale.lean',
                 'GeoProofs/Lemmas/C06PHull.lean',
                 'GeoProofs/Lemmas/C06PPos.lean',
-                'GeoProofs/Lemmas/C06PHullA.lean'],
+                'GeoProofs/Lemmas/C06PHullA.lean',
+                'GeoProofs/Lemmas/C06XSep.lean',
+                'GeoProofs/Lemmas/C06XMoment.lean',
+                'GeoProofs/Lemmas/C06XSlab.lean'],
  'rule': 'random geometries of all 10 types and nested mixed-dimension collections (depth<=3, empty and degenerate '
          'members; polygons: arbitrary rings, convex shells of either winding, valid shells with 0-4 holes of either '
          'winding, flat/single-point polygons with flat holes, shells exactly covered by their holes) in three '
@@ -56,9 +59,26 @@ MANIFEST = {'note': 'Trusted: Lean 4.33 kernel (axioms propext, Classical.choice
          "(non-negative weights summing to 1) of the geometry's coordinates: for every result of dimension 0 or 1 "
          '(centroid_in_hull), for a single hole-free polygon in convex position of either orientation via the fan '
          'triangulation that the shifted moment sum is (centroid_in_hull_convex), and for any nesting whose areal '
-         'members are hole-free convex polygons, rects and triangles (centroid_in_hull_convex_members). Not proved '
-         '(checked on every generated case by the driver instead): hull membership for polygons with holes (negative '
-         'weights). The model (one Lean function per CentroidOperation method, same branches and early returns) is '
+         'members are hole-free convex polygons, rects and triangles (centroid_in_hull_convex_members). Polygons with '
+         'holes (C06X): finite separation in the rational plane - an explicit convex combination of a non-empty '
+         'coordinate list is the same as lying in every closed half-plane that contains the list (hull_iff_halfplanes; '
+         'no convexity library: extreme points as seen from the point, a triangle around it otherwise); for every '
+         'polygon with an areal shell and non-zero net area and every affine f, f(centroid) * (|A_shell| - sum |A_hole|) '
+         '= |int_shell f| - sum |int_hole f| with the integrals in shoelace form (polygon_centroid_moment, holes '
+         'anywhere and of any size); hence the centroid is a convex combination of the shell vertices as soon as the net '
+         'area is positive and the net first moment is non-negative for every closed half-plane containing the shell '
+         'vertices (centroid_in_hull_polygon_partial; hypotheses instantiated on a square with a square hole). Not '
+         'proved (checked on every generated case by the driver instead): that hypothesis from polyValid, i.e. that the '
+         'shoelace moments are the integrals of f over the region between the rings (holes inside the shell, pairwise '
+         'non-overlapping) - the slab decomposition of the first moment, in every direction. Groundwork for it, proved but '
+         'not among the counted property theorems (GeoProofs/Lemmas/C06XSlab.lean cannot be imported by Props/C06.lean: '
+         'the slab lemmas of SMLX import C12 lemmas that import Props/C06; it is built by setup.sh with the whole '
+         'library and scanned for forbidden tokens on every run): ring_first_moment_slabs - for a closed ring and '
+         'strictly increasing levels containing all its ordinates, 6 * (first moment about the x-axis) = sum over slabs '
+         '(u, v) of (v - u) * ((2u + v) * lo + (u + 2v) * hi), lo / hi the signed sums of the crossing abscissae at the '
+         'two ends of the slab (edge_slabsM, momentY_slabs, ringMomentY_edges). Still missing: cross-section of the '
+         'shell >= sum of the cross-sections of the holes at every level (from polyValid via the WIND crossing lemmas), '
+         'and the same in every direction (affine invariance of validity). The model (one Lean function per CentroidOperation method, same branches and early returns) is '
          'compared with the real centroid() on random geometries; the specification (textbook shoelace centroid, '
          'hole subtraction, degenerate fallbacks, dimension dominance, hull membership, translation/scaling pairs) '
          "is evaluated on the implementation's own output."}
